@@ -607,6 +607,10 @@ class ParserField:
                     self.output_transformer = trans
 
         if self.discriminator:
+            self.setup_discriminator()
+
+    def setup_discriminator(self):
+        if True:
             discriminator_map = {}
             comb = None
             if isinstance(self.type, LogicalType):
@@ -621,6 +625,11 @@ class ParserField:
 
             if comb.combinator == "|" or comb.combinator == "^":
                 from .cls import ClassParser
+
+                if any(isinstance(arg, ForwardRef) for arg in comb.args):
+                    # members that are still pending references: the map is made once they are resolved
+                    # (resolve_forward_refs)
+                    return
 
                 for arg in comb.args:
                     if arg is type(None):
@@ -744,6 +753,8 @@ class ParserField:
             self.type, r = resolve_forward_type(self.type)
         if self.output_type:
             self.output_type, r = resolve_forward_type(self.output_type)
+        if self.discriminator and not self.discriminator_map:
+            self.setup_discriminator()
 
     @property
     def always_provided(self):
